@@ -153,3 +153,105 @@ ASSUMPTIONS = [
     "state abstraction: generic vars(parser) snapshot taken at token exhaustion; audited by one-step bisimulation (C01)",
     "bounds: word length per scenario as listed under coverage.scenarios; string contents limited to the alphabets",
 ]
+
+
+# ---------------------------------------------------------------------------------------------
+# E3: grammar-directed valid scripts and their single-token edits (mc/validgen.py)
+
+
+def valid_tasks(tier, seed, oracles, post=None, with_edits=True, layouts=()):
+    from mc import validgen as G
+
+    tasks = []
+    base = dict(oracles=list(oracles), post=post, layouts=list(layouts))
+    tdepth = 3 if tier == "quick" else 4
+    nt = len(G.tests(tdepth))
+    chunk = 16 if tier == "quick" else 64
+    for i in range(chunk):
+        tasks.append(dict(base, kind="tests", depth=tdepth, part=i, parts=chunk))
+    for c in S.all_commands():
+        cap = 1500 if tier == "quick" else 40000
+        tasks.append(dict(base, kind="cmd", name=c, cap=cap))
+    tasks.append(dict(base, kind="chains", depth=2 if tier == "quick" else 3))
+    tasks.append(dict(base, kind="repeat"))
+    if with_edits:
+        parts = 16 if tier == "quick" else 48
+        for i in range(parts):
+            tasks.append(dict(base, kind="edits", part=i, parts=parts, rich=(tier != "quick")))
+    return tasks
+
+
+def _valid_words(t):
+    from mc import validgen as G
+
+    k = t["kind"]
+    if k == "tests":
+        for i, w in enumerate(G.test_scripts(t["depth"])):
+            if i % t["parts"] == t["part"]:
+                yield w
+    elif k == "cmd":
+        for w in G.command_scripts(t["name"], max_forms=t["cap"]):
+            yield w
+    elif k == "chains":
+        for w in G.chains(t["depth"]):
+            yield w
+    elif k == "repeat":
+        for c in S.all_commands():
+            for w in G.repeat_scripts(c):
+                yield w
+    elif k == "edits":
+        src = list(G.test_scripts(1)) + G.chains(1)
+        for c in S.all_commands():
+            src.extend(G.command_scripts(c, max_slots=(2 if t.get("rich") else 1), max_forms=(60 if t.get("rich") else 12)))
+        n = 0
+        for w in src:
+            fw = G.flatten(w)
+            if len(fw) > 25:
+                continue
+            for e in G.edits(fw):
+                n += 1
+                if n % t["parts"] == t["part"]:
+                    yield e
+
+
+def valid_task(t):
+    from mc import validgen as G
+
+    orcs = [ORACLES[o] for o in t["oracles"]]
+    post = POSTS[t["post"]] if t.get("post") else None
+    st = E.Stats()
+    viols = []
+    nvalid = 0
+    distinct = set()
+    for w in _valid_words(t):
+        word = G.PREFIX + tuple(w)
+        case = E.execute(word, want_config=False)
+        st.executions += 1
+        st.transitions += 1
+        st.verdicts[case.obs.verdict] = st.verdicts.get(case.obs.verdict, 0) + 1
+        st.refkinds[case.v.kind] = st.refkinds.get(case.v.kind, 0) + 1
+        if case.v.kind == "VALID":
+            nvalid += 1
+        hc = E.selfcheck_render(case)
+        if hc:
+            st.harness_errors.append("validgen %s: %s" % (t["kind"], hc))
+            continue
+        for o in orcs:
+            viols.extend(o(case))
+        if post is not None:
+            viols.extend(post(case, st) or ())
+        for lay in t.get("layouts") or ():
+            if case.v.kind != "VALID":
+                break
+            lc = E.execute(word, layout=lay, want_config=False)
+            st.executions += 1
+            for o in orcs:
+                viols.extend(o(lc))
+        distinct.add((case.v.kind, case.v.reason, case.v.owner, case.obs.verdict, len(case.toks)))
+        if len(st.samples) < 2 and case.v.kind == "VALID" and len(w) > 8:
+            st.samples.append({"word": words.show(tuple(w)), "impl": case.obs.brief(), "ref": repr(case.v)})
+    return dict(
+        scn="valid:" + t["kind"] + (":" + t["name"] if t.get("name") else ""), depth=t.get("depth", 0), first=None, states=nvalid,
+        transitions=st.transitions, executions=st.executions, max_depth=0, verdicts=st.verdicts, refkinds=st.refkinds,
+        nontrivial=[hash(x) for x in distinct], samples=st.samples, capped=None, completions=0, layout_runs=0, closer_runs=0,
+        harness_errors=st.harness_errors, violations=viols)
